@@ -546,6 +546,16 @@ static void DisasmIterator(OneChunk const* pChunk, Boolean IsData, void* pUser) 
         }
 
         Disassemble(Address, &Info, IsData, DataSize);
+
+        /* An instruction that runs past the end of the image cannot be decoded
+           (length 0): list its first byte as data rather than staying on it. */
+
+        if (!Info.CodeLen) {
+            Disassemble(Address, &Info, True, 1);
+        }
+        if (!Info.CodeLen) {
+            break;
+        }
         if (Info.pRemark) {
             PrTabs(pData->pDestFile, pData->MaxLabelLen, 0);
             fprintf(pData->pDestFile, "; %s\n", Info.pRemark);
